@@ -205,6 +205,12 @@ class SymExec:
             self._note_reads(e, place)
             self.write(place, self.ev(e["r"]))
             return
+        if ek == "Block":
+            for s2 in e.get("stmts", []):
+                self.stmt(s2)
+            if e.get("expr") is not None:
+                self.stmt({"k": "Expr", "e": e["expr"]})
+            return
         if ek in ("If", "Match", "For", "While", "Loop", "Ret"):
             raise NotStraight("control flow (%s): the body is not single-path" % ek)
         if s.get("m") or e.get("m"):
